@@ -325,7 +325,16 @@ pub fn record(args: &[String]) {
 		if excluded.iter().any(|x| x == name) {
 			continue;
 		}
-		let cfg = random_cfg(name, &mut rng, vary == 1 && k % 3 != 0);
+		let mut cfg = random_cfg(name, &mut rng, vary == 1 && k % 3 != 0);
+		// YV_WITNESS_SETS="field=text;field=text": the configuration of a recorded witness (known finding), on a scripted stream
+		let witness = std::env::var("YV_WITNESS_SETS").ok();
+		if let Some(sets) = &witness {
+			cfg = default_cfg(name);
+			for kv in sets.split(';').filter(|x| !x.is_empty()) {
+				let (f, t) = kv.split_once('=').expect("field=text");
+				cfg.set(f, t.to_string()).expect("witness set");
+			}
+		}
 		let mut g = Gen::new(rng.u64(), true);
 		// a volume-based source makes zero-volume bars zero "prices": relative changes (ROC) are undefined on them
 		g.no_zero_volume = cfg.to_json().as_object().unwrap().values().any(|v| v == "volume" || v == "volumed_price");
@@ -335,6 +344,10 @@ pub fn record(args: &[String]) {
 			g.force_drop_at = Some(60);
 		}
 		g.long_regimes = std::env::var("YV_LONG_REGIMES").is_ok();
+		if std::env::var("YV_RANGE_REGIMES").is_ok() {
+			g.one_sided = true;
+			g.droughts = !g.no_zero_volume;
+		}
 		let first = g.candle();
 		let inst = catch(|| cfg.init(&first));
 		let res = match &inst {
@@ -350,8 +363,28 @@ pub fn record(args: &[String]) {
 			if k == "lin_reg" { "linreg".to_string() } else { k }
 		})).collect();
 		let Ok(Ok(mut inst)) = inst else { continue };
+		let mut wprev = first.close as f64;
 		for i in 0..steps {
-			let c = if i == 0 { first } else { g.candle() };
+			let c = if i == 0 {
+				first
+			} else if witness.is_some() {
+				// scripted: volatile at a large scale, a x1/1024 drop, volatile, a long exactly flat stretch, volatile again
+				let u = g.rng.unit();
+				let close = match i % 160 {
+					0..=39 => 3000.0 * (0.5 + u),
+					40..=59 => 3000.0 / 1024.0 * (0.5 + u),
+					60..=119 => wprev,
+					_ => 3.0 * (0.5 + u),
+				};
+				let (o, cl) = (wprev, close);
+				let flat = (60..=119).contains(&(i % 160));
+				let h = o.max(cl) * if flat { 1.0 } else { 1.0 + 0.01 * g.rng.unit() };
+				let l = o.min(cl) * if flat { 1.0 } else { 1.0 - 0.01 * g.rng.unit() };
+				wprev = close;
+				crate::methods::candle(o, h, l, cl, (1.0 + (g.rng.unit() * 500.0).floor()) as f64)
+			} else {
+				g.candle()
+			};
 			match catch(|| inst.next(&c)) {
 				Ok(r) => tw.ev(json!({"ev":"ind_next","c":candle_fx(&c),"v":result_json(&r)["v"],"o":result_json(&r)["o"],"s":result_json(&r)["s"],"size":[r.size().0, r.size().1],"cfgsize":cfgsize,"raw_ma_kinds":ma_kinds})),
 				Err(e) => {
